@@ -235,7 +235,7 @@ def run(ctx):
         n_ret = 12000 if ctx.thorough else 1500
         for _ in range(n_ret):
             try:
-                parts3, _m2, m3, _r2, r3 = returning_chain(A, rng2, rng2.random() < 0.4)
+                parts3, _m2, m3, _r2, r3 = returning_chain(A, rng2, rng2.random() < 0.4, only_one=True)
             except Exception as e:  # noqa
                 if type(e).__name__ == "AssignorHang":
                     hangs["sticky"] = hangs.get("sticky", 0) + 1
